@@ -8,6 +8,10 @@
 
     mulmid_basecase_spec   {rp, un-vn+3} = MP exactly: all un ≥ vn ≥ 1, vn ≤ B (the C: "vn << GMP_NUMBMAX")
     mulmid_n_spec          mpn_mulmid_n, every n ≥ 1 and every MULMID_TOOM42_THRESHOLD, toom42_mulmid by its specification
+    mulmid_spec            mpn_mulmid, all an ≥ bn ≥ 1, every threshold: all four regions of mulmid.c (wide/tall basecase chunks,
+                           wide/tall toom42 chunks with the recursive last chunk), every add-back and mpn_add_n exact (no carry lost)
+  Not covered (run only): mpn_toom42_mulmid itself (it enters by its specification, hypothesis `TmSpec`; `tmSpec_ok` shows the
+  stand-in used by the driver meets it), mpn_mulhigh_n.
 -/
 import MpirProofs.Lemmas.MulMid
 namespace Mpir.MulMid
@@ -47,8 +51,29 @@ theorem mulmid_n_spec (T : Nat) (tm : List Nat → List Nat → Nat → List Nat
     have e : 2 * n - 1 - b.length + 1 = n := by omega
     rw [e] at h1
     exact ⟨h1, h2, by rw [h3]; omega⟩
-  · exact htm a b n ha hb hbl hn hal
+  · exact htm a b n ha hb hbl hn hB hal
 
 example : mulmid_n 5 tmSpec [1, 2, B - 1] [B - 1, 3] 2 = mulmid_n 0 tmSpec [1, 2, B - 1] [B - 1, 3] 2 := by decide +kernel
+
+/-- mpn_mulmid (mulmid.c:41-239): for all sizes an ≥ bn ≥ 1 (the C's ASSERTs) with bn < B (the C's "bn << GMP_NUMBMAX"), every
+    T = MULMID_TOOM42_THRESHOLD (CHUNK = 200 + T) and every `tm` meeting the specification of mpn_toom42_mulmid, the an - bn + 3
+    output limbs are proper limbs whose value is exactly MP(a, an, b, bn): the direct basecase calls, the wide basecase chunks
+    (k = CHUNK - bn + 1 diagonals each, two saved limbs added back by ADDC_LIMB / MPN_INCR_U — the increment t1 + cy does not
+    wrap and MPN_INCR_U does not run off the region), the tall basecase chunks (mpn_add_n of rn + 2 limbs, carry 0), and the
+    two toom42 regions including the recursive call on the last chunk.  `fuel` ≥ an bounds that recursion (the driver passes an). -/
+theorem mulmid_spec (T : Nat) (tm : List Nat → List Nat → Nat → List Nat) (htm : TmSpec tm)
+    (fuel : Nat) (a : List Nat) (an : Nat) (b : List Nat) (ha : Limbs a) (hb : Limbs b)
+    (hbn : 1 ≤ b.length) (han : b.length ≤ an) (hal : an ≤ a.length) (hB : b.length < B) (hfuel : an ≤ fuel) :
+    val (mulmid T tm fuel a an b) = mpW (an - b.length + 1) a b ∧
+    Limbs (mulmid T tm fuel a an b) ∧ (mulmid T tm fuel a an b).length = an - b.length + 3 := by
+  obtain ⟨h1, h2, h3⟩ := mulmid_isMP T tm htm fuel a an b ha hb hbn han hal hB hfuel
+  exact ⟨h1, h2, by rw [h3]⟩
+
+-- non-vacuity: the hypothesis on tm is satisfiable (by the stand-in the driver uses); a toom42 region with a recursive last
+-- chunk at T = 1 (bn = 2 ≤ rn = 3: one toom42 chunk of 2 diagonals, last chunk of 1 diagonal by mpn_mulmid, add-back)
+example : TmSpec tmSpec := tmSpec_ok
+example : mulmid 1 tmSpec 4 [B - 1, B - 1, B - 1, B - 1] 4 [B - 1, B - 1] = [2, B - 2, B - 1, B - 3, 1] := by decide +kernel
+example : val (mulmid 1 tmSpec 4 [B - 1, B - 1, B - 1, B - 1] 4 [B - 1, B - 1]) = mpPairs [B - 1, B - 1, B - 1, B - 1] [B - 1, B - 1] := by
+  decide +kernel
 
 end Mpir.MulMid
